@@ -66,6 +66,10 @@ CLAIMED = {
          "Exploration. (a) .debug_frame/.eh_frame with every call-frame instruction, boundary alignment factors/offsets/advances/ranges, pointer encodings; (b) line programs with every opcode incl. mid-sequence set_address, fixed_advance_pc, define_file, min_inst_len/max_ops > 1, tombstones, v2-5 headers with inline and section-string forms. Conversion + write must either return an error or produce DWARF whose dump equals the input's; converting the output again must reproduce it byte for byte. Panics and the writer's debug assertions count as violations (dev profile).",
          "Observer on both sides is gimli's reader (compared against independent models in C02-C08). A line program without rows whose file table nothing refers to counts as absent. Forest conversion with indexed forms is exercised in C19's unfiltered run.",
          "DESIGN.md §4 C12"),
+ 'C19': ("proptest random assembler-built multi-unit forests with reference graphs, filtered through FilterUnitSection + convert_with_filter for every subset (small forests) or generated subsets of required entries; oracle = an independent reachability closure over the model compared with the identity markers found in the read-back output, plus attribute equality by meaning with the input",
+         "Exploration. Forests of 1-3 units with both tag categories, in-unit/cross-unit references in every form, cycles, references from expressions and location lists; for each required set the output must contain exactly the closure (required entries, ancestors, everything retained entries and the always-present unit roots refer to, member-like children of retained non-namespace entries), with original parents and attributes, no dangling reference, and conversion + write must succeed whenever the unfiltered conversion does.",
+         "Trusts gimli's reader as observer and the assembler in harness/src/fullasm.rs (its output is cross-checked against the model before use). The member-like tag list is taken from the documented list in FilterUnitEntry::has_die_back_edge. Out-of-bounds references and split-unit filters are not generated.",
+         "DESIGN.md §4 C19"),
 }
 NOT_YET = "check not built yet in this session (machinery is being extended property by property; see DESIGN.md §4)"
 
